@@ -117,6 +117,33 @@ impl Tok for bool {
         }
     }
 }
+pub struct S(pub String);
+impl Tok for S {
+    fn show(&self, out: &mut Toks) {
+        sb(out, self.0.as_bytes())
+    }
+    fn parse(p: &mut P) -> Option<Self> {
+        String::from_utf8(p.b()?).ok().map(S)
+    }
+}
+impl Tok for MultisigKlrki {
+    fn show(&self, out: &mut Toks) {
+        for k in [&self.K, &self.L, &self.R, &self.ki] {
+            k.show(out)
+        }
+    }
+    fn parse(p: &mut P) -> Option<Self> {
+        Some(MultisigKlrki { K: Key::parse(p)?, L: Key::parse(p)?, R: Key::parse(p)?, ki: Key::parse(p)? })
+    }
+}
+impl Tok for MultisigOut {
+    fn show(&self, out: &mut Toks) {
+        slist(out, &self.c)
+    }
+    fn parse(p: &mut P) -> Option<Self> {
+        Some(MultisigOut { c: p.list()? })
+    }
+}
 impl Tok for Hash {
     fn show(&self, out: &mut Toks) {
         sb(out, &self.0)
@@ -681,6 +708,9 @@ pub fn run(op: &str, args: &[&str]) -> Option<String> {
         "i32" => plain!(op, rest, i32),
         "i64" => plain!(op, rest, i64),
         "bool" => plain!(op, rest, bool),
+        "string" => op_generic::<String, S>(op, rest, S, |w| &w.0),
+        "klrki" => plain!(op, rest, MultisigKlrki),
+        "multisigout" => plain!(op, rest, MultisigOut),
         "hash" => plain!(op, rest, Hash),
         "hash8" => plain!(op, rest, Hash8),
         "key64" => plain!(op, rest, Key64),
